@@ -144,7 +144,20 @@ pub fn check_buffer(rep: &mut Report, mode: &str, b: &[u8], key: &[u8], creds: &
     let nontrivial = reference.is_ok() || b.len() >= 20;
     rep.case(nontrivial, b);
     match (&real, &reference) {
-        (Ok(()), Err(e)) => { if fl.c02 { rep.violate("C02:accepts-malformed", format!("parser accepted a buffer the reference refuses ({:?}): {}", e, hex_short(b)), wit); } return; }
+        (Ok(()), Err(e)) => {
+            if fl.c02 { rep.violate("C02:accepts-malformed", format!("parser accepted a buffer the reference refuses ({:?}): {}", e, hex_short(b)), wit.clone()); }
+            // C10 speaks about *every accepted message*: judge the exposure rule on the structural walk
+            if fl.c10 {
+                if let Some((attrs, exposed)) = refmsg::walk_lenient(b) {
+                    let bb = b.to_vec();
+                    if let Some(got) = with_timeout(5, move || Message::from_bytes(&bb).unwrap().iter_attributes().map(|a| (a.get_type().value(), a.value.to_vec())).take(70000).collect::<Vec<_>>()) {
+                        let want: Vec<(u16, Vec<u8>)> = exposed.iter().map(|&i| (attrs[i].ty, b[attrs[i].off..attrs[i].off + attrs[i].len].to_vec())).collect();
+                        if got != want { rep.violate("C10:exposed-stream", format!("accepted message exposes {:x?}, the statement's rule gives {:x?} for {}", got.iter().map(|x| x.0).collect::<Vec<_>>(), want.iter().map(|x| x.0).collect::<Vec<_>>(), hex_short(b)), wit); }
+                    }
+                }
+            }
+            return;
+        }
         (Err(e), Ok(_)) => { if fl.c02 { rep.violate("C02:refuses-wellformed", format!("parser refused a well-formed message with {:?}: {}", e, hex_short(b)), wit); } return; }
         (Err(e), Err(r)) => { if fl.c02 && !err_matches(e, r) { rep.violate("C02:wrong-cause", format!("rejection names {:?}, reference cause {:?}: {}", e, r, hex_short(b)), wit); } return; }
         (Ok(()), Ok(_)) => {}
@@ -161,7 +174,7 @@ pub fn check_buffer(rep: &mut Report, mode: &str, b: &[u8], key: &[u8], creds: &
     }
     // ---- C10 / C02 exposed stream (with hang protection: bounded number of items)
     let bb = b.to_vec();
-    let items = with_timeout(10, move || {
+    let items = with_timeout(5, move || {
         let m = Message::from_bytes(&bb).unwrap();
         let mut v = vec![];
         for a in m.iter_attributes() { v.push((a.get_type().value(), a.value.to_vec(), a.length())); if v.len() > 70000 { break; } }
@@ -169,7 +182,7 @@ pub fn check_buffer(rep: &mut Report, mode: &str, b: &[u8], key: &[u8], creds: &
     });
     let items = match items {
         Some(v) => v,
-        None => { rep.violate("C01:iter:hang", format!("attribute iteration did not terminate on {}", hex_short(b)), wit); return; }
+        None => { rep.violate("C01:iter:hang", format!("attribute iteration did not terminate on {}", hex_short(b)), wit); rep.finish_and_exit(); }
     };
     let want: Vec<(u16, Vec<u8>)> = r.exposed.iter().map(|&i| (r.attrs[i].ty, b[r.attrs[i].off..r.attrs[i].off + r.attrs[i].len].to_vec())).collect();
     let got: Vec<(u16, Vec<u8>)> = items.iter().map(|x| (x.0, x.1.clone())).collect();
@@ -184,8 +197,8 @@ pub fn check_buffer(rep: &mut Report, mode: &str, b: &[u8], key: &[u8], creds: &
         for t in tys {
             let first = want.iter().find(|x| x.0 == t);
             let bb = b.to_vec();
-            let res = with_timeout(10, move || { let m = Message::from_bytes(&bb).unwrap(); (m.has_attribute(t.into()), m.raw_attribute(t.into()).map(|a| (a.get_type().value(), a.value.to_vec()))) });
-            let Some((has, raw)) = res else { rep.violate("C01:lookup:hang", format!("lookup did not terminate on {}", hex_short(b)), wit.clone()); return; };
+            let res = with_timeout(5, move || { let m = Message::from_bytes(&bb).unwrap(); (m.has_attribute(t.into()), m.raw_attribute(t.into()).map(|a| (a.get_type().value(), a.value.to_vec()))) });
+            let Some((has, raw)) = res else { rep.violate("C01:lookup:hang", format!("lookup did not terminate on {}", hex_short(b)), wit.clone()); rep.finish_and_exit(); };
             if has != first.is_some() || raw.as_ref() != first {
                 rep.violate("C02:lookup-first-match", format!("lookup of type {:#06x}: has={} raw={:x?}, first exposed match is {:x?} in {}", t, has, raw.map(|x| x.1), first.map(|x| &x.1), hex_short(b)), wit.clone());
             }
@@ -212,9 +225,9 @@ pub fn check_buffer(rep: &mut Report, mode: &str, b: &[u8], key: &[u8], creds: &
         let (any, all_ok, mi_ok, s_ok) = integrity_facts(b, &r, key);
         let bb = b.to_vec();
         let c2 = creds.clone();
-        let res = with_timeout(10, move || catch(move || Message::from_bytes(&bb).unwrap().validate_integrity(&c2).map_err(|e| format!("{:?}", e))));
+        let res = with_timeout(5, move || catch(move || Message::from_bytes(&bb).unwrap().validate_integrity(&c2).map_err(|e| format!("{:?}", e))));
         match res {
-            None => rep.violate("C01:validate:hang", format!("validate_integrity did not terminate on {}", hex_short(b)), wit.clone()),
+            None => { rep.violate("C01:validate:hang", format!("validate_integrity did not terminate on {}", hex_short(b)), wit.clone()); rep.finish_and_exit(); }
             Some(Err(p)) => rep.violate("C01:validate:panic", format!("validate_integrity panicked: {} on {}", p, hex_short(b)), wit.clone()),
             Some(Ok(v)) => {
                 match &v {
@@ -238,7 +251,7 @@ pub fn check_buffer(rep: &mut Report, mode: &str, b: &[u8], key: &[u8], creds: &
         let required: Vec<u16> = pool.iter().filter(|_| rng.below(4) == 0).cloned().collect();
         let bb = b.to_vec();
         let (s2, r2) = (supported.clone(), required.clone());
-        let res = with_timeout(10, move || catch(move || {
+        let res = with_timeout(5, move || catch(move || {
             let m = Message::from_bytes(&bb).unwrap();
             let _ = format!("{} {:?}", m, m);
             for a in m.iter_attributes() { let _ = format!("{} {:?}", a, a); }
@@ -247,7 +260,7 @@ pub fn check_buffer(rep: &mut Report, mode: &str, b: &[u8], key: &[u8], creds: &
             Message::check_attribute_types(&m, &sup, &req).map(|b| b.build())
         }));
         match res {
-            None => rep.violate("C01:inspect:hang", format!("formatting/policing did not terminate on {}", hex_short(b)), wit.clone()),
+            None => { rep.violate("C01:inspect:hang", format!("formatting/policing did not terminate on {}", hex_short(b)), wit.clone()); rep.finish_and_exit(); }
             Some(Err(p)) => {
                 let nonreq = r.class != 0;
                 if nonreq && p.contains("non-request message") {
